@@ -172,8 +172,8 @@ Proof.
   pose proof (pow256_pos (N.of_nat k)) as Hpk.
   assert (Hn : (nbytes v <= S k)%nat).
   { apply nbytes_le. rewrite Nat2N.inj_succ, N.pow_succ_r'. lia. }
-  unfold der_content. rewrite hexbytes_length. destruct (v =? 0) eqn:E0; [lia|].
-  destruct (head_n (hexbytes v) <=? 127) eqn:E; [exact Hn|].
+  unfold der_content. destruct (v =? 0) eqn:E0; [lia|].
+  destruct (head_n (hexbytes v) <=? 127) eqn:E; [rewrite hexbytes_length, E0; exact Hn|].
   cbn [length]. rewrite hexbytes_length, E0.
   destruct (Nat.eq_dec (nbytes v) (S k)) as [Ek|]; [exfalso|lia].
   destruct (hexbytes_head v Hv) as (d & tl & Eh & Hd & Hdv).
@@ -194,7 +194,7 @@ Proof.
   - destruct (N.of_nat (length (hexbytes (Z.to_N r))) <? 256) eqn:El; [reflexivity|lia].
   - cbn [length] in *.
     destruct (N.of_nat (length (hexbytes (Z.to_N r))) + 1 <? 256) eqn:El; [|lia].
-    cbn [bind]. do 3 f_equal. lia.
+    cbn [bind]. rewrite Nat2N.inj_succ, <- N.add_1_r. reflexivity.
 Qed.
 
 Lemma starts_with_same b s : starts_with b (b :: s) = true.
@@ -373,3 +373,99 @@ Proof. eexists. split; [vm_compute; reflexivity|]. split; vm_compute; reflexivit
 (* and from 256 content bytes on the encoder itself raises *)
 Lemma der_encode_fails_at_2_2040 : sigencode_der (2 ^ 2040) 1 = Raise E_VALUE.
 Proof. vm_compute. reflexivity. Qed.
+
+(* ---- strict decoding is prefix-free: NO accepted blob stays accepted with bytes appended ------ *)
+Lemma read_length_app s t v : read_length s = Ret v -> read_length (s ++ t) = Ret v.
+Proof.
+  destruct s as [|s0 tl]; [discriminate|]. cbn [app read_length].
+  destruct (N.land (b2n s0) 128 =? 0); [auto|].
+  set (llen := N.to_nat (N.land (b2n s0) 127)).
+  destruct (length tl <? llen)%nat eqn:E; [discriminate|].
+  rewrite app_length. destruct (length tl + length t <? llen)%nat eqn:E2; [lia|].
+  destruct llen as [|k] eqn:Ek; [auto|].
+  intros H. rewrite <- H. unfold take. rewrite firstn_app.
+  replace (S k - length tl)%nat with 0%nat by lia. cbn [firstn]. rewrite app_nil_r. reflexivity.
+Qed.
+
+Lemma read_length_ll s len ll : read_length s = Ret (len, ll) -> (1 <= ll <= length s)%nat.
+Proof.
+  destruct s as [|s0 tl]; [discriminate|]. cbn [read_length length].
+  destruct (N.land (b2n s0) 128 =? 0); [intros H; injection H as <- <-; lia|].
+  set (llen := N.to_nat (N.land (b2n s0) 127)).
+  destruct (length tl <? llen)%nat eqn:E; [discriminate|].
+  destruct llen as [|k] eqn:Ek; [discriminate|].
+  intros H; injection H as <- <-. lia.
+Qed.
+
+Lemma starts_with_app b s t : starts_with b s = true -> starts_with b (s ++ t) = true.
+Proof. destruct s; [discriminate|auto]. Qed.
+
+Lemma drop1_app (s t : bytes) : s <> [] -> drop 1 (s ++ t) = drop 1 s ++ t.
+Proof. destruct s; [congruence|reflexivity]. Qed.
+
+Lemma remove_integer_app s t broken v rest :
+  remove_integer s broken = Ret (v, rest) -> remove_integer (s ++ t) broken = Ret (v, rest ++ t).
+Proof.
+  unfold remove_integer. destruct (starts_with x02 s) eqn:Es; [|discriminate].
+  rewrite (starts_with_app _ _ t Es). cbn [negb].
+  assert (Hne : s <> []) by (destruct s; [discriminate|congruence]).
+  rewrite (drop1_app s t Hne).
+  destruct (read_length (drop 1 s)) as [[len llen]| |] eqn:Er; try discriminate.
+  rewrite (read_length_app _ t _ Er). cbn [bind].
+  destruct (N.of_nat (length s) <? N.of_nat (1 + llen) + len) eqn:E1; [discriminate|].
+  rewrite app_length.
+  destruct (N.of_nat (length s + length t) <? N.of_nat (1 + llen) + len) eqn:E2; [lia|].
+  unfold take, drop. rewrite !skipn_app, !firstn_app.
+  rewrite skipn_length.
+  replace (N.to_nat len - (length s - (1 + llen)))%nat with 0%nat by lia.
+  replace (1 + llen + N.to_nat len - length s)%nat with 0%nat by lia.
+  cbn [firstn skipn]. rewrite app_nil_r.
+  destruct (firstn (N.to_nat len) (skipn (1 + llen) s)) as [|b0 nb]; [discriminate|].
+  destruct ((128 <=? b2n b0) && negb broken); intros H; injection H as <- <-; reflexivity.
+Qed.
+
+Lemma drop_from_nil e s : drop_from e s = [] -> N.of_nat (length s) <= e.
+Proof.
+  unfold drop_from. destruct (N.of_nat (length s) <=? e) eqn:E; [lia|].
+  intros H. apply (f_equal (@length byte)) in H. unfold drop in H. rewrite skipn_length in H.
+  cbn [length] in H. lia.
+Qed.
+
+Lemma der_strict_prefix_free blob t v :
+  sigdecode_der blob false = Ret v -> t <> [] -> sigdecode_der (blob ++ t) false = Raise E_DER.
+Proof.
+  intros H Ht. unfold sigdecode_der in *.
+  unfold remove_sequence in *.
+  destruct (starts_with x30 blob) eqn:Es; [|discriminate].
+  rewrite (starts_with_app _ _ t Es). cbn [negb] in *.
+  assert (Hne : blob <> []) by (destruct blob; [discriminate|congruence]).
+  rewrite (drop1_app blob t Hne).
+  destruct (read_length (drop 1 blob)) as [[len ll]| |] eqn:Er; try discriminate.
+  rewrite (read_length_app _ t _ Er). cbn [bind] in *.
+  set (e := N.of_nat (1 + ll) + len) in *.
+  destruct (drop_from e blob) as [|x xs] eqn:Ed; [|discriminate].
+  cbn [nonempty andb negb] in H.
+  apply drop_from_nil in Ed.
+  pose proof (read_length_ll _ _ _ Er) as Hll.
+  assert (Hdl : length (drop 1 blob) = (length blob - 1)%nat) by (unfold drop; apply skipn_length).
+  assert (Htk : take_to e blob = blob) by (unfold take_to; destruct (N.of_nat (length blob) <=? e) eqn:E; [reflexivity|lia]).
+  rewrite Htk in H.
+  destruct (remove_integer (drop (1 + ll) blob) false) as [[r rest]| |] eqn:E1; try discriminate.
+  cbn [bind] in H.
+  destruct (remove_integer rest false) as [[s rem2]| |] eqn:E2; try discriminate.
+  cbn [bind] in H. destruct rem2 as [|y ys]; [|discriminate].
+  (* now the longer blob *)
+  unfold drop_from, take_to. rewrite app_length.
+  destruct (N.of_nat (length blob + length t) <=? e) eqn:E3.
+  - cbn [nonempty andb].
+    replace (drop (1 + ll) (blob ++ t)) with (drop (1 + ll) blob ++ t).
+    2:{ unfold drop. rewrite skipn_app. replace (1 + ll - length blob)%nat with 0%nat by lia. reflexivity. }
+    rewrite (remove_integer_app _ t _ _ _ E1). cbn [bind].
+    rewrite (remove_integer_app _ t _ _ _ E2). cbn [bind app].
+    destruct t; [congruence|reflexivity].
+  - assert (Hn : nonempty (drop (N.to_nat e) (blob ++ t)) = true).
+    { destruct (drop (N.to_nat e) (blob ++ t)) eqn:E4; [|reflexivity].
+      apply (f_equal (@length byte)) in E4. unfold drop in E4. rewrite skipn_length, app_length in E4.
+      cbn [length] in E4. lia. }
+    rewrite Hn. reflexivity.
+Qed.
